@@ -761,6 +761,99 @@ def grid_items(cases):
     return items
 
 
+def make_graph_case(rng):
+    gu = list(sysgen.rand_sys(rng))
+
+    def us():
+        return gu if rng.random() < 0.5 else list(sysgen.rand_sys(rng))
+
+    def q(dim):
+        return {"v": rng.choice([1.0, 2.5, 0.125, 8.0, 3e-3, 1234.5]), "sys": list(sysgen.rand_sys(rng)), "dim": list(dim)}
+    n = rng.randint(1, 4)
+    nodes = [{"vol": q((3, 0, 0)), "env": rng.randrange(3), "units": us()} for _ in range(n)]
+    edges = [{"i": rng.randrange(n), "j": rng.randrange(n), "sf": q((2, 0, 0)), "ds": q((1, 0, 0)), "units": us()} for _ in range(rng.randint(0, 4))]
+    return {"nodes": nodes, "edges": edges, "units": gu, "parent": list(sysgen.rand_sys(rng)), "alias_seed": rng.randrange(2 ** 30)}
+
+
+def observe_graph(c):
+    import strengths
+    import strengths.rdgraphspace as gs
+    U = strengths.units
+    try:
+        nodes = [gs.RDGraphSpaceNode(volume=_qtext(n["vol"]), environment=n["env"], units_system=sysgen.py_sys(U, n["units"])) for n in c["nodes"]]
+        edges = [gs.RDGraphSpaceEdge(i=e["i"], j=e["j"], surface=_qtext(e["sf"]), distance=_qtext(e["ds"]), units_system=sysgen.py_sys(U, e["units"]))
+                 for e in c["edges"]]
+        g = strengths.RDGraphSpace(nodes=nodes, edges=edges, units_system=sysgen.py_sys(U, c["units"]))
+        written = json.loads(json.dumps(gs.rdgraphspace_to_dict(g)))
+    except Exception as e:
+        return {"error": "%s: %s" % (type(e).__name__, str(e)[:100])}
+    parent = sysgen.py_sys(U, c["parent"])
+    rng = random.Random(c["alias_seed"])
+    variants = [["as_written", copy.deepcopy(written)]]
+    for syn in ALIASES.get("graph", []):
+        present = [k for k in syn if k in written]
+        if len(present) == 1 and len(syn) > 1 and rng.random() < 0.6:
+            v = copy.deepcopy(written)
+            v[rng.choice([a for a in syn if a != present[0]])] = v.pop(present[0])
+            variants.append(["alias:" + present[0], v])
+    if written["nodes"]:
+        v = copy.deepcopy(written)
+        nd = rng.choice(v["nodes"])
+        r = rng.random()
+        if r < 0.35:
+            nd["vol"] = nd.pop("volume")
+        elif r < 0.7:
+            nd["env"] = nd.pop("environment")
+        else:
+            nd.pop("volume")                              # default volume, in the node's (own or inherited) units
+        variants.append(["nested_node", v])
+    if written["edges"]:
+        v = copy.deepcopy(written)
+        ed = rng.choice(v["edges"])
+        r = rng.random()
+        if r < 0.4:
+            ed.pop(rng.choice(["surface", "distance"]))
+        elif r < 0.7:
+            ed["nodes"] = ed["nodes"] + [7]               # only the first two entries are read
+        else:
+            ed["nodes"] = ed["nodes"][:1]                 # rejected
+        variants.append(["nested_edge", v])
+    for key in ("units", "type", "edges"):
+        if rng.random() < 0.3:
+            v = copy.deepcopy(written)
+            del v[key]
+            variants.append(["omitted:" + key, v])
+    return {"written": written, "variants": _variants_out(variants, lambda d: gs.rdgraphspace_to_dict(gs.rdgraphspace_from_dict(d, parent)))}
+
+
+def emit_graph(c, o):
+    def gq(q):
+        return "(%s, (%s, %s))" % (g_codepoints(repr(float(q["v"]))), si.g_usys(q["sys"]), si.g_dim(q["dim"]))
+    gn = g_list(["(Build_node_obj str %s %s %s)" % (gq(n["vol"]), core.g_z(n["env"]), si.g_usys(n["units"])) for n in c["nodes"]])
+    ge = g_list(["(Build_edge_obj str %s %s %s %s %s)" % (core.g_z(e["i"]), core.g_z(e["j"]), gq(e["sf"]), gq(e["ds"]), si.g_usys(e["units"]))
+                 for e in c["edges"]])
+    gc = "((Build_graph_obj str %s %s %s : gp_obj), %s)" % (gn, ge, si.g_usys(c["units"]), si.g_usys(c["parent"]))
+    if "error" in o:
+        return gc, "(JBool false, [])"
+    go = "(%s, %s)" % (g_jv(o["written"]), g_list(["(%s, %s)" % (g_jv(v), g_jv(w)) for _, v, w in o["variants"]]))
+    return gc, go
+
+
+def graph_items(cases):
+    obs = child.map_children("c12", "observe_graph", cases, timeout=60)
+    items = []
+    for c, o in zip(cases, obs):
+        if "timeout" in o or "crash" in o:
+            o = {"error": "timeout or crash"}
+        try:
+            gc, go = emit_graph(c, o)
+        except ValueError as e:
+            o = {"error": str(e)}
+            gc, go = emit_graph(c, o)
+        items.append({"case": c, "obs": o, "gcase": gc, "gobs": go, "nontrivial": "error" not in o})
+    return items
+
+
 def check(run):
     rng = random.Random(run.seed)
     sysgen.POOLS["space"] = ["cm", "mm", "dmm", "cmm", "µm", "nm", "dm"]
@@ -807,12 +900,20 @@ def check(run):
         for label, _, w in it["obs"].get("variants", []):
             run.count("grid_variant:" + label.split(":")[0] + (":rejected" if w is None else ""))
     core.decide(run, gitems, IMPORTS, "accept_C12_grid", oracle_species, shard=40)
+    pitems = graph_items([make_graph_case(rng) for _ in range(ns)])
+    for it in pitems:
+        for label, _, w in it["obs"].get("variants", []):
+            run.count("graph_variant:" + label.split(":")[0] + (":rejected" if w is None else ""))
+    core.decide(run, pitems, IMPORTS, "accept_C12_graph", oracle_species, shard=30)
 
 
 def replay(run, payload):
     sysgen.POOLS["space"] = ["cm", "mm", "dmm", "cmm", "µm", "nm", "dm"]
     if payload.get("correspondence") == "accept_C12_species":
         core.decide(run, species_items([payload["case"]]), IMPORTS, "accept_C12_species", oracle_species)
+        return
+    if payload.get("correspondence") == "accept_C12_graph":
+        core.decide(run, graph_items([payload["case"]]), IMPORTS, "accept_C12_graph", oracle_species)
         return
     if payload.get("correspondence") == "accept_C12_grid":
         core.decide(run, grid_items([payload["case"]]), IMPORTS, "accept_C12_grid", oracle_species)
